@@ -3313,10 +3313,13 @@ XPath::stepPattern(
 
                 for(;;)
                 {
-                    // The step is on the child axis, so it can't match
-                    // the root node, whatever the node test is...
-                    score = nodeType == XalanNode::DOCUMENT_NODE ||
-                            nodeType == XalanNode::DOCUMENT_FRAGMENT_NODE ?
+                    // A step on the child axis can't match the root
+                    // node, whatever the node test is.  (A '//' at the
+                    // start of the pattern is compiled as a step of its
+                    // own, eMATCH_ANY_ANCESTOR_WITH_PREDICATE, which can.)
+                    score = stepType == XPathExpression::eMATCH_ANY_ANCESTOR &&
+                            (nodeType == XalanNode::DOCUMENT_NODE ||
+                             nodeType == XalanNode::DOCUMENT_FRAGMENT_NODE) ?
                                 eMatchScoreNone :
                                 theTester(*context, nodeType);
 
